@@ -1757,6 +1757,10 @@ class LinkTimeExpressionEvaluator(ConstantExpressionEvaluator):
                 raise NotImplementedError()
         elif isinstance(expr, expressions.CompoundLiteral):
             cval = self.eval_compound_literal(expr)
-        else:  # pragma: no cover
-            raise NotImplementedError()
+        else:
+            self.context.error(
+                "Address of this expression is not supported in a"
+                " static initializer",
+                expr.location,
+            )
         return cval
